@@ -989,10 +989,16 @@ func c19Conn(p *load.Program, r *oblig.Report) {
 						for _, a := range x.Call.Args[1:] {
 							as = append(as, clean(an.Shape(a)))
 						}
-						okReq = strings.Join(as, ",") == "id,*free:c.clientID,*free:c.topic,*free:c.partition,*free:t" || strings.Join(as, ",") == "id,free:c.clientID,free:c.topic,free:c.partition,free:t"
-						if !okReq {
-							okReq = strings.Join(as, ",") == "id,c.clientID,c.topic,c.partition,t"
+						// whether a variable is captured by reference or by value depends on what else the enclosing
+						// function does with it (named results, other closures), not on what is asked
+						joined := strings.NewReplacer("*free:", "", "free:", "").Replace(strings.Join(as, ","))
+						// the correlation id is the write callback's own parameter (its printed name depends on the
+						// order of the function literals in readOffset)
+						_, idIsParam := x.Call.Args[1].(*ssa.Parameter)
+						if i := strings.Index(joined, ","); i >= 0 {
+							joined = joined[i+1:]
 						}
+						okReq = idIsParam && joined == "c.clientID,c.topic,c.partition,t"
 						if !okReq {
 							r.NoteF(rule, "readOffset request args", strings.Join(as, ","))
 						}
